@@ -289,6 +289,32 @@ def celsius_cases() -> list[tuple[str, str]]:
         except Exception as ex:
             msg = f"from_kelvin_quantity of {c + 273.15} K written in mK raised {type(ex).__name__}"
         out.append((f"celsius:millikelvin:{c}", msg))
+    # just above absolute zero (the float spacing of Celsius values there is 6e-14): the quantity
+    # helpers agree with the scalar ones to the last digits - no absolute slack, a nanokelvin is a
+    # temperature
+    for e in range(1, 13):
+        for mant in (1.0, 2.5, 5.0, 9.9):
+            c = -273.15 + mant * 10.0**-e
+            k = to_kelvin(Celsius(c))
+            if k <= 0:
+                continue
+            key = f"celsius:near-zero:{mant}e-{e}"
+            try:
+                kq = to_kelvin_quantity(Celsius(c))
+                si = values.raw_to_si(kq.scale_factor, dims.TH)
+                msg = ""
+                if dims.of_dimension(kq.dimension) != dims.TH or abs(complex(si) - k) > 1e-12 * k:
+                    msg = f"to_kelvin_quantity({c!r}) = {kq} but to_kelvin gives {k!r}"
+                else:
+                    cq = from_kelvin_quantity(kq).value
+                    if abs(cq - c) > 1e-12:
+                        msg = f"from_kelvin_quantity(to_kelvin_quantity({c!r})) = {cq!r}"
+                    cq3 = from_kelvin_quantity(Quantity(k * U.kelvin)).value
+                    if not msg and abs(cq3 - from_kelvin(k).value) > 1e-12:
+                        msg = f"from_kelvin_quantity({k!r} K) = {cq3!r}, from_kelvin = {from_kelvin(k).value!r}"
+            except Exception as ex:  # pylint: disable=broad-except
+                msg = f"Celsius helpers raised {type(ex).__name__}: {ex}"
+            out.append((key, msg))
     # the quantity helper converts temperatures only: every unit of the table (and powers and
     # quotients of kelvin) whose dimension is not temperature must be refused, every temperature
     # spelling accepted with the reference value
